@@ -54,3 +54,39 @@ Proof.
     + destruct (blocked_call_has_a_moving_processor c mc t now st a TW CAP RU LS B) as [X|X]; [left; exact X|right; left; exact X].
     + left. apply client_step_total; try assumption. intros [B|[X|X]]; [exact (NB B)|exact (NKO X)|exact (NKP X)].
 Qed.
+
+(* ---- non-vacuity: the hypotheses of no_reachable_deadlock are met by a concrete reachable state in
+   which a client is blocked in wait() behind an insert the processor has not taken yet ---- *)
+Lemma crun_reach_u64 c st0 ls st os :
+  Forall label_u64 ls -> crun c st0 ls = Some (st, os) -> reach_u64 c st0 st.
+Proof.
+  intros F. revert st0 os. induction F as [|l ls L F IH]; intros st0 os; cbn [crun].
+  - intros H; inversion H; subst. constructor.
+  - destruct (cstep c st0 l) as [st1 o| | |] eqn:E; try discriminate.
+    destruct (crun c st1 ls) as [[st2 os1]|] eqn:R; [|discriminate].
+    intros H; inversion H; subst. specialize (IH st1 _ R).
+    clear -IH E L. induction IH.
+    + econstructor; [constructor|exact L|exact E].
+    + econstructor; eassumption.
+Qed.
+
+Example no_reachable_deadlock_nonvacuous :
+  let c := {| c_ignore_internal := true; c_item_size := 56; c_buf_cap := 4; c_buffer_items := 0; c_metrics := true;
+              c_validator := fun _ _ => true; c_coster := fun _ => 0%Z; c_async := false |} in
+  exists t st,
+    tl_new 3 [1; 2; 3; 4] 29 7 = Some t /\ tl_wf t /\ 0 < c_buf_cap c /\
+    reach_u64 c (cinit c 100 t 1000) st /\
+    N.of_nat (length (s_start st)) <= Consts.NUM_TO_KEEP /\
+    client_of st 0 = KWaitBlock 0 /\ s_pc st = PIdle /\ length (s_buf st) = 2%nat /\
+    continue_client c st 0 = StepBlocked.
+Proof.
+  intros c.
+  destruct (tl_new_spec 3 [1; 2; 3; 4] 29 7) as (t & E & W & _); [lia|reflexivity|vm_compute; discriminate|vm_compute; discriminate|].
+  exists t.
+  destruct (crun c (cinit c 100 t 1000) [LOp 0 (OInsert 1 0 100 1 0 false); LClient 0; LOp 0 OWait; LClient 0; LClient 0]) as [[st os]|] eqn:R.
+  - exists st. split; [exact E|]. split; [exact W|]. split; [reflexivity|].
+    split; [eapply crun_reach_u64; [|exact R]; repeat constructor|].
+    revert R. vm_compute in E. inversion E; subst t. vm_compute. intros R; inversion R; subst.
+    repeat split; vm_compute; congruence || reflexivity.
+  - exfalso. revert R. vm_compute in E. inversion E; subst t. vm_compute. discriminate.
+Qed.
